@@ -131,6 +131,32 @@ InverseLemma ==
                /\ S.A = RatOf(I.LU, n, n, 2) /\ S.ok
                /\ \A j \in 1 .. n : S.piv[j] = I.ipiv[j]
 
+\* least squares: normal equations and range / null-space conditions for the planted answers
+LsLemma ==
+  Fam = "ls" =>
+    LET m == I.m
+        n == I.n
+        R == I.R
+        A == Z0(I.A, m, n)
+        Q == Z0(I.Q, m, m)
+        X0 == Z0(I.X, n, R)
+        B == Z0(I.B, m, R)
+        XM == Z0(I.XMN, m, R)
+        BM == Z0(I.BMN, n, R)
+        Res(i, j) == SumR(LAMBDA c : A[i][c] * X0[c][j], 0, n - 1) - B[i][j]
+    IN /\ \A a, b \in 0 .. m - 1 : SumR(LAMBDA r : Q[r][a] * Q[r][b], 0, m - 1) = (IF a = b THEN 1 ELSE 0)
+       \* range(A) = span of the first n columns of Q (when A has full rank): Q2^T A = 0
+       /\ \A t \in n .. m - 1, c \in 0 .. n - 1 : SumR(LAMBDA i : Q[i][t] * A[i][c], 0, m - 1) = 0
+       \* A^T (A X0 - BLS) = 0
+       /\ \A c \in 0 .. n - 1, j \in 0 .. R - 1 : SumR(LAMBDA i : A[i][c] * Res(i, j), 0, m - 1) = 0
+       \* A^T XMN = BMN and XMN orthogonal to the null space of A^T (= span Q2)
+       /\ \A c \in 0 .. n - 1, j \in 0 .. R - 1 : SumR(LAMBDA i : A[i][c] * XM[i][j], 0, m - 1) = BM[c][j]
+       /\ \A t \in n .. m - 1, j \in 0 .. R - 1 : SumR(LAMBDA i : Q[i][t] * XM[i][j], 0, m - 1) = 0
+       \* full column rank (variant 0): Q1^T A = R0 is upper triangular with non-zero diagonal
+       /\ \A t \in 0 .. n - 1 : \A c \in 0 .. n - 1 :
+            LET r == SumR(LAMBDA i : Q[i][t] * A[i][c], 0, m - 1)
+            IN (c < t => r = 0) /\ (c = t => ((r # 0) = (t # I.kz)))
+
 \* n x n integer matrices
 MMul(X, Y, n) == Mat(n, n, LAMBDA i, j : SumR(LAMBDA t : X[i][t] * Y[t][j], 0, n - 1))
 Ident(n) == Mat(n, n, LAMBDA i, j : IF i = j THEN 1 ELSE 0)
